@@ -1,6 +1,6 @@
 """Process pool for replaying cases into the real code on all cores.
 
-Workers are recycled every few chunks because the repository's component registry
+Workers are recycled after every chunk because the repository's component registry
 grows with every executed pipeline (see C18), which slows long-lived processes."""
 from __future__ import annotations
 
@@ -29,7 +29,7 @@ def _init():
 
 
 def pmap(fn: Callable[[List[Any]], Any], items: Iterable[Any], *, chunk: int = 400,
-         procs: int = NPROC, tasks_per_child: int = 5) -> Iterator[Any]:
+         procs: int = NPROC, tasks_per_child: int = 1) -> Iterator[Any]:
     """Apply fn to chunks of items in worker processes; yields fn's return values."""
     ctx = mp.get_context("fork")
     with ctx.Pool(processes=procs, initializer=_init, maxtasksperchild=tasks_per_child) as pool:
